@@ -62,16 +62,16 @@ Definition pin_dup_model (id : Z) : list Z := pin_dup_spec id.
 Definition pin_blk_spec (id : Z) : list Z := if id =? 45 then [8] else [7].
 Definition pin_blk_model (id : Z) : list Z := if id =? 44 then [7] else if id =? 45 then [8] else [].
 Definition pin_spec (id : Z) : list Z :=
-  if (40 <=? id) && (id <=? 45) then pin_blk_spec id else
   if (30 <=? id) && (id <=? 35) then pin_dup_spec id else
+  if (40 <=? id) && (id <=? 45) then pin_blk_spec id else
   if (20 <=? id) && (id <=? 26) then pin_acc id else
   if (id =? 4) || (id =? 9) || (id =? 10) then [0; 1] else if (id =? 8) then [0; 2]
   else if (1 <=? id) && (id <=? 7) then [1; 0] else [].
 (* otto: every declaration goes through the same createBinding(name, deletable = false) / global property with
    configurable = false, whatever code declares it (cmplVariableDeclaration, cmplFunctionDeclaration) *)
 Definition pin_model (id : Z) : list Z :=
-  if (40 <=? id) && (id <=? 45) then pin_blk_model id else
   if (30 <=? id) && (id <=? 35) then pin_dup_model id else
+  if (40 <=? id) && (id <=? 45) then pin_blk_model id else
   if (20 <=? id) && (id <=? 26) then pin_acc id else
   if (id =? 5) then [1; 0]
   else if (id =? 9) || (id =? 10) then [0; 1]
